@@ -417,6 +417,8 @@ def run_check(prop, tier):
         exit_code = 1
         # group: one replay file per violation kind (first few)
         has_input = any(v["kind"].startswith("oracle") or v["kind"] in ("model-vs-impl", "probe", "implementation-aborts") for v in real)
+        # the violations that come with a concrete input are listed first, so that the replay files shown are the useful ones
+        real.sort(key=lambda v: 0 if (v["kind"].startswith("oracle") or v["kind"] in ("probe", "implementation-aborts") or (v["kind"] == "model-vs-impl" and v.get("impl_status") in ("panic", "abort", "timeout"))) else (1 if v["kind"] == "model-vs-impl" else 2))
         shown = 0
         for v in real:
             if shown >= 5:
@@ -429,6 +431,9 @@ def run_check(prop, tier):
             suffix = ""
             if v["kind"] in ("proof-obligation-broken", "harness-build-failed", "stream-crashed") and not has_input:
                 suffix = " no-failing-input-found"
+            elif v["kind"] == "model-vs-impl" and v.get("impl_status") in ("panic", "abort", "timeout") and v.get("model_status") not in ("panic", "abort", "timeout"):
+                # the implementation crashes on this input where the proved-total model returns a result: a concrete failing input
+                suffix = ""
             elif v["kind"] == "model-vs-impl" and not cfg.get("model_is_spec") and not any(x["kind"].startswith("oracle") or x["kind"] == "probe" for x in real):
                 # correspondence broke, the direct oracle saw no property failure on the explored inputs
                 suffix = " no-failing-input-found"
